@@ -359,6 +359,22 @@ def conv_idx(d_from, idx, d_to):
             it_ = iter(nz)
             out = [zero_idx(f) if is_unit(f) else next(it_)[1] for f in fb]
             return tuple(out) if isinstance(d_to, Prod) else out[0]
+    if isinstance(d_from, Prod) and isinstance(d_to, Prod) and not isinstance(idx, Flat):
+        ka = [(k, i) for k, i in zip(d_from.kids, idx) if not is_unit(k)]
+        kb = [k for k in d_to.kids if not is_unit(k)]
+        if len(ka) == len(kb) and all(ext_eq(extent(a[0]), extent(b)) for a, b in zip(ka, kb)):
+            it_ = iter(ka)
+            out = []
+            for k in d_to.kids:
+                if is_unit(k):
+                    out.append(zero_idx(k))
+                else:
+                    kf, ix = next(it_)
+                    out.append(conv_idx(kf, ix, k))
+            return tuple(out)
+    if isinstance(d_from, Sum) and isinstance(d_to, Sum) and isinstance(idx, Br) and len(d_from.kids) == len(d_to.kids) and \
+            all(ext_eq(extent(a), extent(b)) for a, b in zip(d_from.kids, d_to.kids)):
+        return Br(idx.b, conv_idx(d_from.kids[idx.b], idx.idx, d_to.kids[idx.b]))
     return Flat(to_flat(d_from, idx))
 
 
@@ -1627,6 +1643,44 @@ def source(name, dims, dtype="real"):
 
 
 # ------------------------------------------------------------------------------------------------
+def refine(sd, cd, tag):
+    """common refinement of two Dims of equal extent: list of (index into sd, index into cd, hyps)"""
+    if sd is cd or same_struct(sd, cd):
+        return [(ix, ix, hy) for ix, hy in fresh_cases(sd, tag)]
+    if isinstance(sd, Prod) and isinstance(cd, Prod):
+        # align non-unit kids pairwise when their extents agree
+        ks = [k for k in sd.kids if not is_unit(k)]
+        kc = [k for k in cd.kids if not is_unit(k)]
+        if len(ks) == len(kc) and all(ext_eq(extent(a), extent(b)) for a, b in zip(ks, kc)):
+            parts = [refine(a, b, f"{tag}{i}") for i, (a, b) in enumerate(zip(ks, kc))]
+            out = []
+            for combo in itertools.product(*parts):
+                it_s, it_c = iter(combo), iter(combo)
+                si = tuple(zero_idx(k) if is_unit(k) else next(it_s)[0] for k in sd.kids)
+                ci = tuple(zero_idx(k) if is_unit(k) else next(it_c)[1] for k in cd.kids)
+                out.append((si, ci, [h for c in combo for h in c[2]]))
+            return out
+    if isinstance(sd, Sum) and isinstance(cd, Sum) and len(sd.kids) == len(cd.kids) and \
+            all(ext_eq(extent(a), extent(b)) for a, b in zip(sd.kids, cd.kids)):
+        out = []
+        for b, (a, c) in enumerate(zip(sd.kids, cd.kids)):
+            for si, ci, hy in refine(a, c, f"{tag}b{b}"):
+                out.append((Br(b, si), Br(b, ci), hy))
+        return out
+    if isinstance(sd, Prod) and not isinstance(cd, Prod) and len([k for k in sd.kids if not is_unit(k)]) == 1:
+        k = [k for k in sd.kids if not is_unit(k)][0]
+        return [(tuple(zero_idx(x) if is_unit(x) else si for x in sd.kids), ci, hy) for si, ci, hy in refine(k, cd, tag)]
+    if isinstance(cd, Prod) and not isinstance(sd, Prod) and len([k for k in cd.kids if not is_unit(k)]) == 1:
+        k = [k for k in cd.kids if not is_unit(k)][0]
+        return [(si, tuple(zero_idx(x) if is_unit(x) else ci for x in cd.kids), hy) for si, ci, hy in refine(sd, k, tag)]
+    if isinstance(sd, Atom):
+        return [(Flat(to_flat(cd, ix)), ix, hy) for ix, hy in fresh_cases(cd, tag)]
+    if isinstance(cd, Atom):
+        return [(ix, Flat(to_flat(sd, ix)), hy) for ix, hy in fresh_cases(sd, tag)]
+    # structurally different composite dims: index the spec's structure, address the code by flat position
+    return [(ix, Flat(to_flat(sd, ix)), hy) for ix, hy in fresh_cases(sd, tag)]
+
+
 def compare(code, spec, what="result", hyps=()):
     """∀ index: code.elem == spec.elem.  Returns (status, detail, model)
     status in proved / refuted / unknown.  The index ranges over the common refinement of the two
@@ -1639,15 +1693,12 @@ def compare(code, spec, what="result", hyps=()):
             if st == "refuted":
                 return "refuted", f"{what}: extent of axis {i}: code {code.shape[i]} vs spec {spec.shape[i]}", m
             return "unknown", f"{what}: extent of axis {i} undecided", None
-    # per axis, index cases are generated from the finer structure (the one that is not a bare Atom)
-    from_code = [isinstance(sd, Atom) and not isinstance(cd, Atom) for sd, cd in zip(spec.dims, code.dims)]
-    per_axis = [fresh_cases(cd if fc else sd, f"i{i}") for i, (sd, cd, fc) in enumerate(zip(spec.dims, code.dims, from_code))]
+    per_axis = [refine(sd, cd, f"i{i}") for i, (sd, cd) in enumerate(zip(spec.dims, code.dims))]
     n = 0
     for combo in itertools.product(*per_axis):
-        raw = [c[0] for c in combo]
-        hy = [h for c in combo for h in c[1]] + list(hyps)
-        sidx = [conv_idx(cd, ix, sd) if fc else ix for sd, ix, cd, fc in zip(spec.dims, raw, code.dims, from_code)]
-        cidx = [ix if fc else conv_idx(sd, ix, cd) for sd, ix, cd, fc in zip(spec.dims, raw, code.dims, from_code)]
+        sidx = [c[0] for c in combo]
+        cidx = [c[1] for c in combo]
+        hy = [h for c in combo for h in c[2]] + list(hyps)
         with sym.scope(hy):
             if not sym.feasible():
                 continue
